@@ -3,6 +3,7 @@ derivation oracle (membership, derivation counting, tree enumeration, first offe
 
 Everything random derives from the `random.Random` instance passed in.
 Terminals are distinct single characters so that lexing cannot interfere (C01 scope)."""
+import random
 import itertools
 from functools import lru_cache
 
@@ -488,6 +489,123 @@ def diamond_grammar(rng):
     prods.sort(key=lambda p: order[p[0]])
     used = {s for _, rhs in prods for s in rhs if s in tn}
     return Gram(prods, {t: t[1] for t in tn if t in used})
+
+
+def seq_grammar(rng):
+    for _ in range(50):
+        try:
+            return _seq_grammar(rng)
+        except StopIteration:
+            continue
+    return _seq_grammar(random.Random(1))
+
+
+def _seq_grammar(rng):
+    """SLR-by-construction family: the start rule is a sequence of 2-5 elements over pairwise distinct terminals, each element
+    a nonterminal of one of the shapes  X: 'x'  |  O: 'o' | EMPTY  |  L: L 'b' | EMPTY (nullable, directly LEFT recursive)  |
+    R: 'r' R | EMPTY  |  L: L 'b' | 'b'  |  P: O2 'p' (a nullable nonterminal first) , optionally wrapped in a unit rule, followed
+    by a closing terminal; 1-2 alternatives with distinct leading terminals. FIRST/FOLLOW through nullable recursive
+    nonterminals standing after other nonterminals only shows on this shape."""
+    letters = iter("abcdefgh")
+    tn = {}
+
+    def term():
+        c = next(letters)
+        tn["T" + c] = c
+        return "T" + c
+    prods = []
+    fresh = iter("N%d" % i for i in range(1, 40))
+    alts = []
+    for a in range(rng.randint(1, 2)):
+        seq = []
+        if a > 0 or rng.random() < 0.5:
+            seq.append(term())
+        for _ in range(rng.randint(2, 3 if a else 4)):
+            try:
+                nt = next(fresh)
+                kind = rng.choice(["x", "o", "l0", "l0", "r0", "l1", "p"])
+                t = term()
+                if kind == "x":
+                    prods.append((nt, [t]))
+                elif kind == "o":
+                    prods += [(nt, [t]), (nt, [])]
+                elif kind == "l0":
+                    prods += [(nt, [nt, t]), (nt, [])]
+                elif kind == "r0":
+                    prods += [(nt, [t, nt]), (nt, [])]
+                elif kind == "l1":
+                    prods += [(nt, [nt, t]), (nt, [t])]
+                else:
+                    o = next(fresh)
+                    t2 = term()
+                    prods += [(nt, [o, t]), (o, [t2]), (o, [])]
+                if rng.random() < 0.25:
+                    w = next(fresh)
+                    prods.append((w, [nt]))
+                    nt = w
+                seq.append(nt)
+            except StopIteration:
+                break
+        try:
+            seq.append(term())
+        except StopIteration:
+            pass
+        alts.append(seq)
+    prods = [("S", a) for a in alts] + prods
+    order = {}
+    for l, _ in prods:
+        order.setdefault(l, len(order))
+    prods.sort(key=lambda p: order[p[0]])
+    used = {x for _, rhs in prods for x in rhs if x in tn}
+    return Gram(prods, {t: c for t, c in tn.items() if t in used})
+
+
+def twins_grammar(rng):
+    """Family for the identity / merging of states: 2-3 'twin' nonterminals whose right-hand sides share a terminal prefix
+    (C: x c ; D: x c e), used in several contexts after different leading terminals, directly or through a wrapper rule
+    (M: C g) — so that the same kernel is collected in different closure rounds / orders in different states and LALR
+    merging meets equal cores with different lookaheads."""
+    tn = {"T" + c: c for c in T_CHARS}
+    names = list(tn)
+    rng.shuffle(names)
+    it = iter(names)
+    prefix = [next(it) for _ in range(rng.randint(1, 2))]
+    twins = []
+    prods = []
+    sufs = [[], [next(it)], [next(it)]] if rng.random() < 0.5 else [[], [next(it)]]
+    for i, suf in enumerate(sufs):
+        nt = "C%d" % i
+        twins.append(nt)
+        prods.append((nt, prefix + suf))
+    follow = [next(it), next(it)]
+    leads = [next(it), next(it)]
+    alts = []
+    wrap_n = 0
+    for lead in leads:
+        for tw in rng.sample(twins, rng.randint(1, len(twins))):
+            f = rng.choice(follow)
+            if rng.random() < 0.4:
+                wrap_n += 1
+                w = "M%d" % wrap_n
+                prods.append((w, [tw, f]))
+                alts.append([lead, w])
+            else:
+                alts.append([lead, tw, f])
+    seen = set()
+    top = []
+    for a in alts:
+        if tuple(a) not in seen:
+            seen.add(tuple(a))
+            top.append(("S", a))
+    prods = top + prods
+    refd = {x for _, rhs in prods for x in rhs}
+    prods = [p for p in prods if p[0] == "S" or p[0] in refd]
+    order = {}
+    for l, _ in prods:
+        order.setdefault(l, len(order))
+    prods.sort(key=lambda p: order[p[0]])
+    used = {x for _, rhs in prods for x in rhs if x in tn}
+    return Gram(prods, {t: c for t, c in tn.items() if t in used})
 
 
 def annotate(rng, g, p_prod=0.4, p_term=0.2, p_rule=0.1):
